@@ -1,6 +1,7 @@
 package props
 
 import (
+	"bytes"
 	"context"
 	"errors"
 	"fmt"
@@ -52,7 +53,13 @@ type batchCase struct {
 	// with RegionServerStoppedException: connections die while the batch is being grouped or is in
 	// flight (then a call may legitimately be executed twice: only the order / routing oracles apply)
 	ProbeStop []int `json:"probe_stop,omitempty"`
-	SlowMS     int   `json:"slow_ms,omitempty"`
+	// Sched: call SchedCall gets two owned scheduling points: the batch is held up CollectMS before it first
+	// looks at that call's result, the region client's reader DeliverMS before it delivers to it
+	Sched          bool `json:"sched,omitempty"`
+	SchedCall      int  `json:"sched_call,omitempty"`
+	SchedCollectMS int  `json:"sched_collect_ms,omitempty"`
+	SchedDeliverMS int  `json:"sched_deliver_ms,omitempty"`
+	SlowMS         int  `json:"slow_ms,omitempty"`
 }
 
 type batchObs struct {
@@ -162,6 +169,9 @@ func batchExec(c batchCase) batchObs {
 			}
 			if c.SlowMS > 0 {
 				call = wrapSlow(call, time.Duration(c.SlowMS)*time.Millisecond)
+			}
+			if c.Sched && i == c.SchedCall {
+				call = wrapSched(call, time.Duration(c.SchedCollectMS)*time.Millisecond, time.Duration(c.SchedDeliverMS)*time.Millisecond)
 			}
 			if c.Invalid == "dup" && i == c.InvalidAt && i > 0 {
 				call = calls[0]
@@ -603,6 +613,17 @@ func c12Run(c batchCase) (out Outcome) {
 	return out
 }
 
+// regionIndex is the index of the region of l that owns key.
+func regionIndex(l layoutSpec, key []byte) int {
+	i := 0
+	for _, b := range l.Bounds {
+		if bytes.Compare(key, b) >= 0 {
+			i++
+		}
+	}
+	return i
+}
+
 func execHistory(execs []sim.Exec) []string {
 	var hist []string
 	for _, x := range execs {
@@ -642,7 +663,21 @@ func c12Gen(t *rapid.T) batchCase {
 	for i := 0; i < nb; i++ {
 		c.Batch = append(c.Batch, genOp(t, c.Layout, []string{"get", "get", "put", "app", "inc", "del"}, &n))
 	}
-	switch rapid.IntRange(0, 6).Draw(t, "mode") {
+	switch rapid.IntRange(0, 7).Draw(t, "mode") {
+	case 7:
+		// every call of the first call's region is answered "retry later" once (exception-only scripts),
+		// and the first call's result channel gets owned scheduling points: the batch starts collecting
+		// late, the reader delivers to that call late - results become available out of batch order
+		c.Scripts = map[string][]sim.Outcome{}
+		first := regionIndex(c.Layout, c.Batch[0].Key)
+		for _, op := range c.Batch {
+			if regionIndex(c.Layout, op.Key) == first {
+				c.Scripts[op.Marker] = []sim.Outcome{{Kind: "exc", Class: rapid.SampledFrom([]string{sim.CallQueueBig, sim.TooBusy, sim.RegionOpening}).Draw(t, "rclass"), Stack: "scripted"}, {Kind: "ok"}}
+			}
+		}
+		c.Sched, c.SchedCall = true, 0
+		c.SchedCollectMS = rapid.SampledFrom([]int{0, 30, 50}).Draw(t, "collect")
+		c.SchedDeliverMS = rapid.SampledFrom([]int{0, 40, 100}).Draw(t, "deliver")
 	case 6:
 		// a region reports its server as stopping (connection-level class) while other regions of
 		// the same multi-response succeed, and the results reach the batch some ms apart
@@ -688,7 +723,7 @@ func c12Gen(t *rapid.T) batchCase {
 	}
 	// (with a region reporting its server as stopping, a second batch sharing the connections could have
 	// its multi-request killed in flight after execution: at-least-once, not what this check is about)
-	if len(c.RegionStop) == 0 && len(c.ProbeStop) == 0 && rapid.IntRange(0, 3).Draw(t, "other") == 0 {
+	if len(c.RegionStop) == 0 && len(c.ProbeStop) == 0 && !c.Sched && rapid.IntRange(0, 3).Draw(t, "other") == 0 {
 		no := rapid.IntRange(1, 6).Draw(t, "nother")
 		for i := 0; i < no; i++ {
 			c.Other = append(c.Other, genOp(t, c.Layout, []string{"get", "put"}, &n))
